@@ -41,17 +41,39 @@ def prog_job(args):
         except Exception as e:
             hist["generator_error:" + errkind(e)] = hist.get("generator_error:" + errkind(e), 0) + 1
             continue
-        sigidx = {id(s): i for i, s in enumerate(allsigs)}
-        case = {"seed": seed, "sigs": [(s.name, len(s), s.shape().signed, s.init) for s in allsigs],
-                "comb_idx": [sigidx[id(s)] for s in combT], "sync_idx": [sigidx[id(s)] for s in syncT]}
+        case = {"seed": seed}
         try:
-            m1 = Module(); gen_prog.build(m1, items)
-            dummy = Signal(name="dummy"); m1.d.sync += dummy.eq(~dummy)
-            frag = Fragment.get(m1, None)
+            m2 = Module()
+            fsms = gen_prog.build(m2, items)
+            dummy = Signal(name="dummy"); m2.d.sync += dummy.eq(~dummy)
+            # signals the DSL created itself: FSM state registers (sync), ongoing() signals and og (comb)
+            fsm_list = list(gen_prog.fsm_items(items))
+            ogs = [sig for it in fsm_list for sig, _ in it[4]]
+            states = [fsms[it[1]].state for it in fsm_list]
+            frag = Fragment.get(m2, None)
+            known = {id(s) for s in allsigs + ogs + states + [dummy]}
+            extra = []
+            for d in ("comb", "sync"):
+                for st in frag.statements.get(d, []):
+                    for sg in list(st._lhs_signals()) + list(st._rhs_signals()):
+                        if id(sg) not in known:
+                            known.add(id(sg)); extra.append(sg)
+            combT2 = combT + ogs
+            syncT2 = syncT + states
+            allsigs = inputs + combT2 + syncT2 + extra
+            sigidx = {id(s): i for i, s in enumerate(allsigs)}
+            for it in fsm_list:
+                sigidx["fsm:" + it[1]] = fsms[it[1]].state
+            case.update({"sigs": [(s.name, len(s), s.shape().signed, s.init) for s in allsigs],
+                         "comb_idx": [sigidx[id(s)] for s in combT2], "sync_idx": [sigidx[id(s)] for s in syncT2]})
+            # the FSM-specific sentences, checked directly: initial state = first defined unless specified
+            for it in fsm_list:
+                enc = gen_prog.fsm_encoding(it)
+                want = enc[it[2] if it[2] is not None else it[3][0][0]]
+                if fsms[it[1]].state.init != want:
+                    case["fsm_init"] = (it[1], fsms[it[1]].state.init, want)
             stm = {d: gen_prog.ser_stmts(frag.statements.get(d, []), {**sigidx, id(dummy): len(allsigs)}) for d in ("comb", "sync")}
             prog = {d: gen_prog.ser_prog(items, d, sigidx) for d in ("comb", "sync")}
-            m2 = Module(); gen_prog.build(m2, items)
-            dummy2 = Signal(name="dummy"); m2.d.sync += dummy2.eq(~dummy2)
             sim = Simulator(m2)
             sim.add_clock(Period(MHz=1))
             steps = []
@@ -68,8 +90,10 @@ def prog_job(args):
             sim.run()
             case["steps"] = steps
         except Exception as e:
-            case["error"] = (errkind(e), repr(e)[:300])
-            case["prog"] = {d: gen_prog.ser_prog(items, d, sigidx) for d in ("comb", "sync")}
+            import traceback
+            case["error"] = (errkind(e), repr(e)[:300] + traceback.format_exc()[-400:])
+            case.setdefault("sigs", [])
+            case["prog"] = {"comb": repr(items)[:1500], "sync": ""}
             out.append(case)
             continue
         ctx = ser_ctx([s.shape() for s in allsigs] + [unsigned(1)])
@@ -101,6 +125,10 @@ def has_alias(req):
 
 def judge(chk, case, resps):
     base = {"sigs": case["sigs"], "prog": case.get("prog"), "job_seed": case["seed"]}
+    if "fsm_init" in case:
+        chk.violation(f"FSM {case['fsm_init'][0]} starts in state encoding {case['fsm_init'][1]}, the first defined (or specified) state has {case['fsm_init'][2]}",
+                      dict(base, kind="fsm-init", classes=[]))
+        return
     if "error" in case:
         chk.violation(f"building or simulating a legal DSL program raises {case['error'][0]}: {case['error'][1]}",
                       dict(base, kind="raises", error=case["error"], classes=[]))
